@@ -30,7 +30,7 @@ for item, ids in sorted(m.items()):
 
 out = []
 out.append('### Which checks catch which changes\n')
-out.append('Produced by `scripts/battery.sh` (quick tier, each change applied to a scratch worktree of /repo HEAD) and recorded in `selftest/matrix.json` and in each `seeded/*/meta.json`. A complete run of all 18 checks over all 260 items takes more than seven hours on this machine, so the last record is composed from partial runs by `scripts/compose_matrix.py` (logs in `selftest/runs/`): with the final checker, the eleven fast checks on every item, the E3 check of its own property on every seeded change and mutant that the fast checks do not flag, and all eight E3 checks on every refactoring; for the seeded changes of rounds 1–4 the entries also keep what the E3 checks of *other* properties reported in the earlier complete runs. Bold = the check of the property the change was written against.\n')
+out.append('Produced by `scripts/battery.sh` (quick tier, each change applied to a scratch worktree of /repo HEAD) and recorded in `selftest/matrix.json` and in each `seeded/*/meta.json`. A complete run of all 18 checks over all 260 items takes more than seven hours on this machine, so the last record is composed from partial runs by `scripts/compose_matrix.py` (logs in `selftest/runs/`): with the final checker, the eleven fast checks on every item, the E3 check of its own property on every seeded change and mutant that the fast checks do not flag, and all eight E3 checks on every refactoring; for the seeded changes of rounds 1–4 the entries also keep what the E3 checks of *other* properties reported in the earlier complete runs. Round 6 (suffix k/l, sets b22/b23): the eleven fast checks and the E3 check of its own property on every seeded change; on the six refactorings the SQL-side checks on b22 and the XSS-side checks on b23 (C17 of C17l: see the note under the table). Bold = the check of the property the change was written against.\n')
 out.append('**Seeded changes from sub-agents** (`seeded/`)\n')
 out.append('| change | round | what it does (from its notes) | checks that report a violation |')
 out.append('|---|---|---|---|')
